@@ -266,9 +266,9 @@ def run(ctx, chk):
             report_aborts(chk, "C04.R8", nt, I.events, where)
 
     # R4 byte register aliasing
-    breg = P.adts.get("util::data_util::ByteReg")
-    getf = P.by_name.get(("lib", "util::data_util::get_byte_reg"))
-    setf = P.by_name.get(("lib", "util::data_util::set_byte_reg"))
+    breg = P.find_adt("util::data_util::ByteReg")
+    getf = P.find("lib", "util::data_util::get_byte_reg")
+    setf = P.find("lib", "util::data_util::set_byte_reg")
     if not (breg and getf and setf):
         chk.undecided_("C04.R4", "get/set_byte_reg", "functions or ByteReg enum not found")
     else:
@@ -281,7 +281,7 @@ def run(ctx, chk):
             # get
             I = Interp(P)
             st = machine_state(I, P)
-            ret = I.run_fn(getf, [RefV((0, "vm", ())), EnumV("util::data_util::ByteReg", vi, (), len(breg["variants"]))], st)
+            ret = I.run_fn(getf, [RefV((0, "vm", ())), EnumV(breg["name"], vi, (), len(breg["variants"]))], st)
             good = ret is not None and ret.kind == "int" and all(b == ("c", word, lo + i) for i, b in enumerate(ret.bits))
             if good:
                 chk.ok("C04.R4", f"get {name}", f"= {word}[{lo}..{lo + 7}]")
@@ -291,7 +291,7 @@ def run(ctx, chk):
             I = Interp(P)
             st = machine_state(I, P)
             val = I.new_atom("u8", "val")
-            I.run_fn(setf, [RefV((0, "vm", ())), EnumV("util::data_util::ByteReg", vi, (), len(breg["variants"])), val], st)
+            I.run_fn(setf, [RefV((0, "vm", ())), EnumV(breg["name"], vi, (), len(breg["variants"])), val], st)
             vm = st.frames[0]["vm"]
             regs = {n: vm.fields[0].fields[i] for n, i in ai.items()}
             bad = [n for n, x in regs.items() if n != word and not is_copy(x, n)]
@@ -303,7 +303,7 @@ def run(ctx, chk):
                 chk.ok("C04.R4", f"set {name}", f"replaces {word}[{lo}..{lo + 7}] only")
 
     # R5 word lanes: separate_bytes + every interpreter production with a word memory operand
-    sep = P.by_name.get(("lib", "util::data_util::separate_bytes"))
+    sep = P.find("lib", "util::data_util::separate_bytes")
     if sep:
         s = summarize_fn(ctx, sep)
         ret = s.ret
